@@ -335,7 +335,15 @@ fn run_v(dir: &std::path::Path, c: &VCase) -> VRun {
     if c.vr { eps.push("/vr/".into()); }
     for b in &eps {
         let mut ok = false;
-        for w in [500u64, 1000, 2000, 4000, 8000] { if pipe.get_t(&format!("{b}{}", pool_text(NEVER)), w, false).0 == 200 { ok = true; break; } }
+        let t0 = Instant::now();
+        let mut waits = [500u64, 1000, 2000, 4000, 8000].into_iter();
+        while t0.elapsed() < Duration::from_secs(40) {
+            match pipe.get_t(&format!("{b}{}", pool_text(NEVER)), 500, false).0 {
+                200 => { ok = true; break; }
+                TIMEOUT => { let Some(w) = waits.next() else { break }; if pipe.get_t(&format!("{b}{}", pool_text(NEVER)), w, false).0 == 200 { ok = true; break; } }
+                _ => std::thread::sleep(Duration::from_millis(5)),          // not registered yet (404)
+            }
+        }
         if !ok { out.setup = Some(format!("virtual-endpoint-not-answering {b}")); return out; }
     }
     let _ = panics_take();
@@ -354,8 +362,9 @@ fn run_v(dir: &std::path::Path, c: &VCase) -> VRun {
             (Some(b), 'c') if !dead => pipe.get_client_gone(&q.target(b)),
             (Some(b), _) => pipe.get_t(&q.target(b), if dead { 600 } else { 20_000 }, true),
         };
-        if st == TIMEOUT { dead = true; }
         let ps = panics_take();
+        // an abandoned request that nobody answers is how it should be; anything else unanswered means the task is gone
+        if st == TIMEOUT && (q.what != 'c' || !ps.is_empty()) { dead = true; }
         let mut tok = match st { 200 if q.ep == 'x' => "200".to_string(), 200 => format!("200:{}", summary(st, &body)), TIMEOUT => "T".into(), s => s.to_string() };
         let mut sites: Vec<String> = ps; sites.sort(); sites.dedup();
         for s in &sites { tok.push('!'); tok.push_str(s); }
@@ -480,6 +489,14 @@ fn run_c(a: &Value, b: &Value) -> String {
 /// The comparator is judged as an ordering: reflexive, and antisymmetric (`cmp(a,b)` is the reverse of `cmp(b,a)`).
 fn oracle_c(a: &Value, b: &Value, ab: &str) -> String {
     if ab == "panic" { return "fail ribsort:comparator-panic cmp_json_values panicked".into(); }
+    // what the comments of the code promise: strings in string order, (small) unsigned numbers in numeric order
+    let want = match (a, b) {
+        (Value::String(x), Value::String(y)) => Some(x.cmp(y)),
+        (Value::Number(x), Value::Number(y)) => match (x.as_u64().filter(|v| *v <= i64::MAX as u64), y.as_u64().filter(|v| *v <= i64::MAX as u64)) { (Some(x), Some(y)) => Some(x.cmp(&y)), _ => None },
+        (Value::Bool(x), Value::Bool(y)) => Some(x.cmp(y)),
+        _ => None,
+    };
+    if let Some(w) = want { if ord_char(w) != ab { return format!("fail ribsort:comparator-wrong-order two values of one plain type compare {ab}, their natural order is {}", ord_char(w)); } }
     let ba = run_c(b, a);
     let rev = match ab { "L" => "G", "G" => "L", _ => "E" };
     if ba != rev { return format!("ok ## not-antisymmetric cmp(a,b)={ab} cmp(b,a)={ba}"); }
@@ -492,6 +509,21 @@ fn run_s(keys: Option<&str>, vals: &[Value]) -> String {
     let mut v = vals.to_vec();
     if catch_unwind(AssertUnwindSafe(|| vq::sort_results(keys, &mut v))).is_err() { let _ = panics_take(); return "panic".into(); }
     perm_of(vals, &v).map(|p| format!("[{}]", join(p.iter(), " "))).unwrap_or("not-a-permutation".into())
+}
+/// The sorted slice is a permutation of its input; entries that lack the first key come before those that have it
+/// (`missing < present`); entries whose first key holds strings (or small unsigned numbers) throughout are in that order.
+fn oracle_s(keys: Option<&str>, vals: &[Value], imp: &str) -> String {
+    if imp == "panic" { return "fail ribsort:sort-panic sort_results panicked".into(); }
+    if imp == "not-a-permutation" { return "fail ribsort:sort-changes-answer:slice the sorted slice is not a permutation of its input".into(); }
+    let Some(keys) = keys else { return "ok".into() };
+    let k0 = keys.split(',').next().unwrap_or("");
+    let perm: Vec<usize> = imp.trim_matches(['[', ']']).split_whitespace().filter_map(|x| x.parse().ok()).collect();
+    let at: Vec<Option<&Value>> = perm.iter().map(|i| vals[*i].pointer(k0)).collect();
+    if at.windows(2).any(|w| w[0].is_some() && w[1].is_none()) { return "fail ribsort:missing-not-first an entry without the sort key comes after one that has it".into(); }
+    let present: Vec<&Value> = at.iter().flatten().cloned().collect();
+    if present.iter().all(|v| v.is_string()) && present.windows(2).any(|w| w[0].as_str() > w[1].as_str()) { return "fail ribsort:not-ordered-by-key string values of the sort key are not in order".into(); }
+    if present.iter().all(|v| v.as_u64().is_some_and(|x| x < 1 << 62)) && present.windows(2).any(|w| w[0].as_u64() > w[1].as_u64()) { return "fail ribsort:not-ordered-by-key numeric values of the sort key are not in order".into(); }
+    "ok".into()
 }
 /// positions in `base` of the elements of `sorted` (each position used once; leftmost unused equal value first)
 fn perm_of(base: &[Value], sorted: &[Value]) -> Option<Vec<usize>> {
@@ -771,6 +803,7 @@ fn oracle_v(c: &VCase, run: &VRun) -> (String, bool) {
             } else if *st == TIMEOUT && q.what != 'c' { Some(format!("vrib:unanswered query {} was never answered", q.show())) }
             else if *st >= 500 && *st != TIMEOUT { Some(format!("vrib:server-error query {} answered {st}", q.show())) }
             else if q.ep == 'x' && *st != 200 { Some(format!("vrib:status-page-gone /status answered {st}")) }
+            else if virt && (q.what == 'i' || q.what == 'u') && *st != 400 { Some(format!("vrib:malformed-request-not-refused {} answered {st}, not 400", q.show())) }
             else if (virt || q.ep == 'p') && q.what == 'q' && up.starts_with('D') && *tok != format!("200:{up}") && !(virt && *st == TIMEOUT) {
                 // no roto script is loaded: every virtual RIB accepts everything, so its answer is the physical RIB's
                 if virt { Some(format!("vrib:answer-differs-from-upstream query {} answered {tok}, the physical RIB {up}", q.show())) }
@@ -924,7 +957,7 @@ fn main() {
         let keys = if big { Some(jg.rng.pick(&["/a", "/b", "/a,/b", "/b,/a", "/c,/a", "/b,/c,/a"]).to_string()) } else { keys };
         let Some(ev) = enc_list(&vals) else { rec.bump("S.unencodable"); continue };
         let imp = run_s(keys.as_deref(), &vals);
-        let oracle = if imp == "panic" { "fail ribsort:sort-panic sort_results panicked".to_string() } else if imp == "not-a-permutation" { "fail ribsort:sort-changes-answer:slice the sorted slice is not a permutation of its input".to_string() } else { "ok".to_string() };
+        let oracle = oracle_s(keys.as_deref(), &vals, &imp);
         rec.bump(if big { "S.big" } else if keys.is_none() { "S.no-key" } else { "S.small" });
         rec.case(format!("S|{}|{}", keys.as_deref().map_or("-".to_string(), |k| if k.is_empty() { "".into() } else { hex(k.as_bytes()) }), if ev.is_empty() { ";".into() } else { ev }), imp, oracle, vals.len() >= 2);
         if i % 40 == 1 {
@@ -979,7 +1012,7 @@ fn replay_line(dir: &std::path::Path, rt: &tokio::runtime::Runtime, line: &str, 
             if let Some(vals) = dec_list(f[2]) {
                 let keys = if f[1] == "-" { None } else { unhex(f[1]).and_then(|b| String::from_utf8(b).ok()) };
                 let imp = run_s(keys.as_deref(), &vals);
-                let oracle = if imp == "panic" { "fail ribsort:sort-panic sort_results panicked".to_string() } else if imp == "not-a-permutation" { "fail ribsort:sort-changes-answer:slice not a permutation".to_string() } else { "ok".to_string() };
+                let oracle = oracle_s(keys.as_deref(), &vals, &imp);
                 rec.case(line.to_string(), imp, oracle, vals.len() >= 2);
             }
         }
